@@ -9,3 +9,5 @@ func verifNote(kind string, kv ...interface{}) {}
 func verifID(p interface{}) string { return "" }
 
 func verifCount(e *EventSubscription) int64 { return 0 }
+
+func verifCID(sub Subscriber) string { return "" }
